@@ -114,12 +114,12 @@ RULE = ("exhaustive: every text over {a, newline} (plus tab when a TabsProcessor
 EXHAUSTIVE = True
 EXHAUSTIVE_SCOPE = {
     "quick": "texts over {a,\\n} len<=4 (len<=5 plain configuration; {a,\\n,\\t} or {a,\\n,blank} len<=3 with Tabs / "
-             "white-space processors) x w 1..4 x h 1..3 x wrap x 18 configurations, all cursors; mouse: len<=3 x w 1..4 "
+             "white-space processors) x w 1..4 x h 1..3 x wrap x 21 configurations, all cursors; mouse: len<=3 x w 1..4 "
              "x h 1..2 x wrap x 5 configurations, all cells clicked; any widths: texts over {a,wide,combining,^A,\\n} "
              "len<=3 x w 1..3 x h 1..2 x wrap x 3 configurations, all cursors; all planes, no wrap: texts over "
              "{a,U+3105,U+AC00,U+1F600,U+0300,U+200B,U+E0100} len<=2 x w 1..3 x h 1..2 x 3 configurations",
     "thorough": "texts over {a,\\n} len<=6 (len<=7 for 3 configurations; len<=4 with TabsProcessor, len<=5 with "
-                "white-space processors) x w 1..4 x h 1..3 x wrap x 18 configurations, all cursors; mouse: len<=4; any "
+                "white-space processors) x w 1..4 x h 1..3 x wrap x 21 configurations, all cursors; mouse: len<=4; any "
                 "widths: len<=4 x w 1..4; all planes, no wrap: len<=3"}
 TRUSTED = ["harness/c11.py compares, after every Window.write_to_screen: vertical/horizontal/intra-line scroll, the "
            "content cursor, Screen.cursor_positions[window], render_info.visible_line_to_row_col and _rowcol_to_yx "
@@ -152,6 +152,12 @@ PARTIAL_SCOPE = ["wrapping AND a double-width / zero-width / control character o
                  "proposed_fixes/C11-wide-wrap-height.diff NOT applied (its model variant is proved exact in "
                  "Props/C11Exact and would be selected by a probed flag). Without wrapping, and with wrapping on "
                  "Regular lines, wide / zero-width / control characters ARE covered by theorems",
+                 "[ZeroWidthEscape] fragments in a BeforeInput prompt: modelled and proved (shift = fragment_list_len = "
+                 "visible characters, no cell, no column) and correspondence-checked WITH wrapping only; WITHOUT wrapping "
+                 "and horizontal_scroll > 0 the skip loop of copy_line explodes the line and counts the escape characters "
+                 "(width and `skipped`), the cursor cell is then not drawn: KNOWN finding (own class), not modelled, such "
+                 "cases are not generated; a TabsProcessor / Show*WhiteSpace processor AFTER such a BeforeInput explodes the "
+                 "escape fragments and counts their characters in its position map (observed, not modelled, not generated)",
                  "a zero-width character under the cursor has no cell of its own (KNOWN finding, own class; "
                  "zero_width_under_cursor_not_recorded); without wrapping its position is still recorded inside the window",
                  "mouse: the window installs its handler only for x < xpos + width - (left + right margins): the "
@@ -179,6 +185,14 @@ def make_processor(p):
         return TabsProcessor(tabstop=p[1], char1=p[2], char2=p[3])
     if k == "B":
         return BeforeInput(p[1])
+    if k == "Z":  # ["Z", mode, style, [[zw, text], ...]]: BeforeInput whose prompt has [ZeroWidthEscape] fragments
+        mode, style, frs = p[1], p[2], p[3]
+        if mode == "ansi":  # through ANSI: \001 .. \002 marks a zero-width escape
+            from prompt_toolkit.formatted_text import ANSI
+            text = ANSI("".join(("\001" + t + "\002") if zw else t for zw, t in frs))
+        else:               # directly as fragments
+            text = [("[ZeroWidthEscape]" if zw else "", t) for zw, t in frs]
+        return BeforeInput(text, style=style)
     if k == "A":
         return AfterInput(p[1])
     if k == "P":
@@ -374,7 +388,7 @@ def observe(rig, step, sc, wp):
             s2d.append(str(pl.source_to_display(i)))
         except KeyError:
             s2d.append("E")
-    m = sum(len(t) for _, t, *_ in pl.fragments)
+    m = sum(len(t) for st_, t, *_ in pl.fragments if "[ZeroWidthEscape]" not in st_)  # drawn characters
     d2s = [str(pl.display_to_source(j)) for j in range(m + 2)]
     toks.append("pm " + " ".join([str(len(s2d))] + s2d) + " dm " + " ".join([str(len(d2s))] + d2s))
     # columns of the first window row that got this window's mouse handler
@@ -421,6 +435,8 @@ def enc_proc(p):
     k = p[0]
     if k == "T":
         return ["T", str(p[1]), str(ord(p[2])), str(ord(p[3]))]
+    if k == "Z":
+        return ["Z", str(len(p[3]))] + [t for zw, txt in p[3] for t in ("1" if zw else "0", enc_str(txt))]
     if k in "BA":
         return [k, enc_str(p[1])]
     if k in "PLR":
@@ -543,6 +559,8 @@ def sig_class(case, step, text, cur, rig=None):
     if zero_width_under_cursor(text, cur):
         # a combining character has no cell of its own (it is merged into the previous cell)
         return "zero-width character under the cursor"
+    if has_zw(case) and not step["wrap"] and rig is not None and rig.win.horizontal_scroll > 0:
+        return "zero-width-escape fragment in the line and horizontal scroll"
     wide = any(get_cwidth(ch) != 1 for ch in text if ch not in "\n\t") or \
         any(get_cwidth(ch) != 1 for p in (case.get("prefix") or []) for ch in p) or \
         any(get_cwidth(ch) != 1 for p in flat_procs(case.get("procs", [])) for a in p[1:] if isinstance(a, str)
@@ -711,6 +729,15 @@ CFGS += [
     {"rights": [["S"], ["C", True, ["P", "ab"]]], "so": [1, 0, 1, 1], "init": [2, 4, 1]},
     {"lefts": [["P", ">"], ["C", False, ["S"]]], "rights": [["C", False, ["S"]], ["S"]], "prefix": ["", "", "-"]},
 ]
+# BeforeInput prompts with [ZeroWidthEscape] fragments (shell-integration marks): before / between / after the
+# visible characters, through ANSI(\001..\002) and directly as fragments, with and without style= on BeforeInput
+ZW_A, ZW_B = "\x1b]133;A\x07", "\x1b]133;B\x07"
+CFGS += [
+    {"procs": [["Z", "ansi", "class:prompt", [[True, ZW_A], [False, "$"], [True, ZW_B], [False, " "], [True, "zz"]]]]},
+    {"procs": [["Z", "frag", "", [[True, ZW_A], [False, "> "]]], ["I", 1]], "so": [0, 1, 1, 1]},
+    {"procs": [["Z", "frag", "class:x", [[False, ">"], [True, ZW_B]]], ["Z", "ansi", "", [[False, "a"], [True, "q"], [False, "b"]]]],
+     "init": [1, 3, 1], "margin": True},
+]
 # alphabet of the configurations with white-space processors
 ALPHA_SP = ["a", "\n", " "]
 # configurations of the exhaustive mouse family (every cell of the window is clicked)
@@ -729,6 +756,11 @@ def extra_width(cfg, nlines=1):
     mw = max(3, len(str(nlines)) + 1) if cfg.get("margin") else 0
     mw += sum(margin_width(m, nlines) for m in cfg.get("lefts", []) + cfg.get("rights", []))
     return pw + mw
+
+
+def has_zw(cfg):
+    """a BeforeInput prompt with [ZeroWidthEscape] fragments is configured"""
+    return any(p[0] == "Z" for p in flat_procs(cfg.get("procs", [])))
 
 
 def sweep_case(cfg, text, w, h, wrap, clicks=False):
@@ -756,7 +788,10 @@ def boundary_text(rng, w, alpha):
     return "\n".join(lines)
 
 
-RAND_CFG_PROCS = [[["R", "~"], ["L", "_"], ["B", "> "]], [["L", "."], ["C", "cond", True, ["T", 4, "|", "-"]], ["I", 3]],
+RAND_CFG_PROCS = [[["Z", "ansi", "class:prompt", [[True, "\x1b]133;A\x07"], [False, "$ "], [True, "\x1b]133;B\x07"]]]],
+                  [["Z", "frag", "bold", [[False, ">>"], [True, "escape"], [False, " "]]], ["A", "<"]],
+                  [["B", "ab"], ["Z", "frag", "", [[True, "x"], [False, "y"], [True, "z"]]]],
+                  [["R", "~"], ["L", "_"], ["B", "> "]], [["L", "."], ["C", "cond", True, ["T", 4, "|", "-"]], ["I", 3]],
                   [["M", [["B", "ab"], ["T", 2, ">", " "]]], ["C", "dyn", False, ["B", "zzz"]], ["M", []], ["M", [["P", "*"]]]],
                   [["C", "cond", False, ["T", 4, "|", "."]], ["I", 0], ["C", "dyn", True, ["M", [["B", "> "], ["L", "_"]]]]],
                   [], [], [["T", 4, "|", "."]], [["T", 1, "|", "."]], [["B", ">> "]], [["B", "> "], ["T", 3, "|", "-"]],
@@ -783,6 +818,10 @@ def random_case(rng, alpha, tab_always=False, wide_cfg=False):
         cfg["lefts"] = rng.choice([[["P", "> "]], [["S"]], [["C", True, ["P", "ab"]], ["C", False, ["N"]]]])
     if rng.random() < 0.2:
         cfg["cbs"] = rng.choice([[True, False], [False, True], [True, True]])
+    if tab_always and has_zw(cfg):
+        # a TabsProcessor after a prompt with [ZeroWidthEscape] fragments explodes them and counts the escape
+        # characters in its position map (observed on the real code; outside the model): not generated
+        cfg["procs"] = [["T", 4, "|", "."]]
     if tab_always and not any(p[0] == "T" for p in flat_procs(cfg["procs"])):
         cfg["procs"] = cfg["procs"] + [["T", rng.choice([1, 2, 4, 8]), "|", "."]]
     w = rng.randrange(1, 10)
@@ -814,6 +853,8 @@ def random_case(rng, alpha, tab_always=False, wide_cfg=False):
             st["cb"] = [rng.choice([-2, 0, 1, 3, 14]), rng.choice([-2, 0, 1, 3, 14])]
         if rng.random() < 0.3:
             st["clicks"] = [[rng.randrange(-1, h + 1), rng.randrange(-1, st["w"] + 1)] for _ in range(3)]
+        if has_zw(cfg):
+            st["wrap"] = True  # KNOWN finding: horizontal scroll counts the escape characters (see PARTIAL_SCOPE)
         steps.append(st)
     cfg["ops"] = steps
     return cfg
@@ -837,6 +878,8 @@ def cases(tier, rng):
                 for w in range(1, 5):
                     for h in range(1, 4):
                         for wrap in (True, False):
+                            if has_zw(cfg) and not wrap:
+                                continue  # KNOWN finding: horizontal scroll counts the escape characters
                             yield sweep_case(cfg, text, w, h, wrap)
     # exhaustive mouse family: every cell of the window rectangle clicked (width-1 characters)
     for cfg in MOUSE_CFGS:
